@@ -27,6 +27,11 @@ theorem projD_append (d : Nat) (l l' : List AEv) : projD d (l ++ l') = projD d l
     | ret op v => simpa [projD] using ih
     | tl th e => simpa [projD] using ih
     | quiet => simpa [projD] using ih
+    | sysP th d' x => simpa [projD] using ih
+    | tlP th x => simpa [projD] using ih
+    | unwound op => simpa [projD] using ih
+    | hook th x => simpa [projD] using ih
+    | gone => simpa [projD] using ih
 
 theorem dispatches_append (l l' : List AEv) : dispatches (l ++ l') = dispatches l + dispatches l' := by
   induction l with
@@ -38,6 +43,11 @@ theorem dispatches_append (l l' : List AEv) : dispatches (l ++ l') = dispatches 
     | sys th d e => simpa [dispatches] using ih
     | tl th e => simpa [dispatches] using ih
     | quiet => simpa [dispatches] using ih
+    | sysP th d x => simpa [dispatches] using ih
+    | tlP th x => simpa [dispatches] using ih
+    | unwound op => simpa [dispatches] using ih
+    | hook th x => simpa [dispatches] using ih
+    | gone => simpa [dispatches] using ih
 
 theorem pending_append (l l' : List AEv) (p : Option AOp) : pending (l ++ l') p = pending l' (pending l p) := by
   induction l generalizing p with
@@ -96,18 +106,22 @@ def dataOk : Data → Job → Prop
   | .inner, .idle => True
   | .rx, .running _ => True
   | .rx, .sent => True
+  | .rx, .failed _ _ _ => True
   | _, _ => False
 
 def jobOk (P : APlan) (l : List AEv) (n : Nat) : Job → Prop
   | .running r => 0 < n ∧ derivs P.job.toR (projD (n - 1) l) = some r
+  | .failed r _ _ => 0 < n ∧ derivs P.job.toR (projD (n - 1) l) = some r
   | _ => 0 < n → Traces P.job (projD (n - 1) l)
 
 def callerOk : Caller → Data → Prop
-  | .holding op, d => d = .inner ∧ op ≠ .running ∧ op ≠ .wait
+  | .holding op, d => d = .inner ∧ op ≠ .running ∧ op ≠ .wait ∧ op ≠ .setup
   | .inTl _, d => d = .inner
   | .polled false, d => d = .inner
   | .spawned, d => d = .rx
   | .polled true, d => d = .rx
+  | .inSetup _, d => d = .inner
+  | .tlFailed, d => d = .inner
   | _, _ => True
 
 def callerOp : Caller → Option AOp
@@ -117,10 +131,24 @@ def callerOp : Caller → Option AOp
   | .spawned => some .dispatch
   | .inTl _ => some .wait
   | .polled _ => some .running
+  | .inSetup _ => some .setup
+  | .tlFailed => some .wait
 
 def spawnedBit : Caller → Nat
   | .spawned => 1
   | _ => 0
+
+/-- a system of a job has panicked -/
+def isSysP : AEv → Bool
+  | .sysP _ _ _ => true
+  | _ => false
+
+def Job.isFailed : Job → Bool
+  | .failed _ _ _ => true
+  | _ => false
+
+theorem any_sysP_of_mem {l : List AEv} {th : Th} {d x : Nat} (h : AEv.sysP th d x ∈ l) : l.any isSysP = true :=
+  List.any_eq_true.mpr ⟨_, h, rfl⟩
 
 structure Inv (P : APlan) (c : Ctl) (l : List AEv) : Prop where
   data_job : dataOk c.data c.job
@@ -130,9 +158,14 @@ structure Inv (P : APlan) (c : Ctl) (l : List AEv) : Prop where
   caller_data : callerOk c.caller c.data
   pend : pending l none = callerOp c.caller
   disp : c.nDisp = dispatches l + spawnedBit c.caller
+  /-- a system has panicked iff the job is `failed` (and it stays so for ever) … -/
+  fail_iff : l.any isSysP = c.job.isFailed
+  /-- … and it was a system of the latest dispatch -/
+  fail_disp : ∀ th d x, AEv.sysP th d x ∈ l → d + 1 = c.nDisp
 
 theorem inv_init (P : APlan) : Inv P {} [] :=
-  ⟨trivial, fun _ _ => rfl, fun d h => by simp at h, fun h => by simp at h, trivial, rfl, rfl⟩
+  ⟨trivial, fun _ _ => rfl, fun d h => by simp at h, fun h => by simp at h, trivial, rfl, rfl, rfl,
+   fun _ _ _ h => by cases h⟩
 
 theorem jobOk_congr {P : APlan} {l l' : List AEv} {n : Nat} {j : Job}
     (h : ∀ d, projD d l' = projD d l) : jobOk P l n j → jobOk P l' n j := by
@@ -143,11 +176,18 @@ theorem inv_caller_only {P : APlan} {c : Ctl} {l : List AEv} (hi : Inv P c l) (c
     (ho : ∀ d, projD d (l ++ optList o) = projD d l)
     (hcd : callerOk cl c.data)
     (hp : pending (l ++ optList o) none = callerOp cl)
-    (hd : dispatches (l ++ optList o) + spawnedBit cl = dispatches l + spawnedBit c.caller) :
+    (hd : dispatches (l ++ optList o) + spawnedBit cl = dispatches l + spawnedBit c.caller)
+    (hq : (optList o).any isSysP = false) :
     Inv P { c with caller := cl } (l ++ optList o) :=
   ⟨hi.data_job, fun d h => by rw [ho]; exact hi.beyond d h, fun d h => by rw [ho]; exact hi.earlier d h,
-   jobOk_congr ho hi.current, hcd, hp, by rw [hd]; exact hi.disp⟩
+   jobOk_congr ho hi.current, hcd, hp, by rw [hd]; exact hi.disp,
+   by rw [List.any_append, hq, Bool.or_false]; exact hi.fail_iff,
+   fun th d x h => by
+     rcases List.mem_append.mp h with h | h
+     · exact hi.fail_disp th d x h
+     · rw [any_sysP_of_mem h] at hq; cases hq⟩
 
+/-- a step of the job that appends one event of the latest dispatch (or none) -/
 theorem step_inv {P : APlan} {c c' : Ctl} {l : List AEv} {lb : Lbl} {o : Option AEv}
     (hi : Inv P c l) (hs : step P c lb = some (c', o)) : Inv P c' (l ++ optList o) := by
   cases lb with
@@ -156,14 +196,14 @@ theorem step_inv {P : APlan} {c c' : Ctl} {l : List AEv} {lb : Lbl} {o : Option 
     split at hs
     · rename_i hc
       cases hs
-      refine inv_caller_only hi _ _ (by simp [optList, projD_append, projD]) trivial ?_ ?_
+      refine inv_caller_only hi _ _ (by simp [optList, projD_append, projD]) trivial ?_ ?_ (by simp [optList, isSysP])
       · simp [optList, pending_append, pending, callerOp]
       · simp [optList, dispatches_append, dispatches, spawnedBit, hc]
     · cases hs
   | acquire =>
     obtain ⟨data, job, caller, n⟩ := c
-    obtain ⟨hdj, hbey, hear, hcur, hcd, hpend, hdisp⟩ := hi
-    simp only at hdj hbey hear hcur hcd hpend hdisp
+    obtain ⟨hdj, hbey, hear, hcur, hcd, hpend, hdisp, hfi, hfd⟩ := hi
+    simp only at hdj hbey hear hcur hcd hpend hdisp hfi hfd
     cases caller <;> simp only [step] at hs <;> try (cases hs)
     rename_i op
     split at hs
@@ -171,30 +211,33 @@ theorem step_inv {P : APlan} {c c' : Ctl} {l : List AEv} {lb : Lbl} {o : Option 
     · split at hs
       · rename_i hne hok
         cases hs
-        have hj : jobOk P l n .idle := by
-          cases data <;> cases job <;> simp [dataOk, available] at hdj hok ⊢ <;> exact hcur
+        have hj : jobOk P l n .idle ∧ job.isFailed = false := by
+          cases data <;> cases job <;> simp [dataOk, available, Job.isFailed] at hdj hok ⊢ <;> exact hcur
         refine ⟨trivial, by simpa [optList] using hbey, by simpa [optList] using hear,
-          by simpa [optList] using hj, ?_, ?_, ?_⟩
-        · by_cases hw : op = .wait <;> simp [hw, callerOk, hne]
-        · by_cases hw : op = .wait <;> simp [hw, callerOp, optList, hpend]
-        · by_cases hw : op = .wait <;> simp [hw, spawnedBit, optList, hdisp]
+          by simpa [optList] using hj.1, ?_, ?_, ?_, ?_, by simpa [optList] using hfd⟩
+        · cases op <;> simp [afterAcquire, callerOk] at hne ⊢
+        · cases op <;> simp [afterAcquire, callerOp, optList, hpend]
+        · cases op <;> simp [afterAcquire, spawnedBit, optList, hdisp]
+        · simpa [optList, hfi, Job.isFailed] using hj.2
       · cases hs
   | poll =>
     obtain ⟨data, job, caller, n⟩ := c
-    obtain ⟨hdj, hbey, hear, hcur, hcd, hpend, hdisp⟩ := hi
-    simp only at hdj hbey hear hcur hcd hpend hdisp
+    obtain ⟨hdj, hbey, hear, hcur, hcd, hpend, hdisp, hfi, hfd⟩ := hi
+    simp only at hdj hbey hear hcur hcd hpend hdisp hfi hfd
     cases caller <;> simp only [step] at hs <;> try (cases hs)
     rename_i op
     cases op <;> simp only at hs <;> try (cases hs)
-    cases data <;> cases job <;> simp only at hs <;> cases hs <;> simp [dataOk] at hdj
+    rcases data with _ | _ <;> rcases job with _ | r | _ | ⟨r, ps, _ | _⟩ <;> simp only at hs <;> cases hs <;>
+      simp [dataOk] at hdj
     all_goals
       refine ⟨by simp [dataOk], by simpa [optList] using hbey, by simpa [optList] using hear,
         by simpa [optList, jobOk] using hcur, by simp [callerOk], by simpa [optList, callerOp] using hpend,
-        by simpa [optList, spawnedBit] using hdisp⟩
+        by simpa [optList, spawnedBit] using hdisp, by simpa [optList, Job.isFailed] using hfi,
+        by simpa [optList] using hfd⟩
   | spawn =>
     obtain ⟨data, job, caller, n⟩ := c
-    obtain ⟨hdj, hbey, hear, hcur, hcd, hpend, hdisp⟩ := hi
-    simp only at hdj hbey hear hcur hcd hpend hdisp
+    obtain ⟨hdj, hbey, hear, hcur, hcd, hpend, hdisp, hfi, hfd⟩ := hi
+    simp only at hdj hbey hear hcur hcd hpend hdisp hfi hfd
     cases caller <;> simp only [step] at hs <;> try (cases hs)
     rename_i op
     cases op <;> simp only at hs <;> cases hs
@@ -203,8 +246,13 @@ theorem step_inv {P : APlan} {c c' : Ctl} {l : List AEv} {lb : Lbl} {o : Option 
     subst hcd
     cases job <;> simp [dataOk] at hdj
     simp only [jobOk] at hcur
+    simp only [Job.isFailed] at hfi
     refine ⟨trivial, fun d h => by simpa [optList] using hbey d (by simp at h; omega), fun d h => ?_, ?_, rfl,
-      by simpa [optList, callerOp] using hpend, by simp [optList, spawnedBit] at hdisp ⊢; omega⟩
+      by simpa [optList, callerOp] using hpend, by simp [optList, spawnedBit] at hdisp ⊢; omega,
+      by simpa [optList, Job.isFailed] using hfi,
+      fun th d x h => by
+        simp only [optList, List.append_nil] at h
+        rw [any_sysP_of_mem h] at hfi; cases hfi⟩
     · simp only [optList, List.append_nil]
       by_cases hd : d + 1 < n
       · exact hear d hd
@@ -223,61 +271,84 @@ theorem step_inv {P : APlan} {c c' : Ctl} {l : List AEv} {lb : Lbl} {o : Option 
       cases op <;> simp only at hs <;> cases hs <;>
         exact inv_caller_only hi _ _ (by simp [optList, projD_append, projD]) trivial
           (by simp [optList, pending_append, pending, callerOp])
-          (by simp [optList, dispatches_append, dispatches, spawnedBit])
+          (by simp [optList, dispatches_append, dispatches, spawnedBit]) (by simp [optList, isSysP])
     · exact inv_caller_only hi _ _ (by simp [optList, projD_append, projD]) trivial
           (by simp [optList, pending_append, pending, callerOp])
-          (by simp [optList, dispatches_append, dispatches, spawnedBit])
+          (by simp [optList, dispatches_append, dispatches, spawnedBit]) (by simp [optList, isSysP])
     · split at hs
       · cases hs
         exact inv_caller_only hi _ _ (by simp [optList, projD_append, projD]) trivial
           (by simp [optList, pending_append, pending, callerOp])
-          (by simp [optList, dispatches_append, dispatches, spawnedBit])
+          (by simp [optList, dispatches_append, dispatches, spawnedBit]) (by simp [optList, isSysP])
       · cases hs
     · exact inv_caller_only hi _ _ (by simp [optList, projD_append, projD]) trivial
           (by simp [optList, pending_append, pending, callerOp])
-          (by simp [optList, dispatches_append, dispatches, spawnedBit])
+          (by simp [optList, dispatches_append, dispatches, spawnedBit]) (by simp [optList, isSysP])
+    · rename_i rest
+      cases rest <;> simp only at hs <;> cases hs
+      exact inv_caller_only hi _ _ (by simp [optList, projD_append, projD]) trivial
+          (by simp [optList, pending_append, pending, callerOp])
+          (by simp [optList, dispatches_append, dispatches, spawnedBit]) (by simp [optList, isSysP])
   | tlEv e =>
     obtain ⟨data, job, caller, n⟩ := c
     cases caller <;> simp only [step] at hs <;> try (cases hs)
     split at hs
     · cases hs
-      refine inv_caller_only hi _ _ (by simp [optList, projD_append, projD]) hi.caller_data ?_ ?_
+      refine inv_caller_only hi _ _ (by simp [optList, projD_append, projD]) hi.caller_data ?_ ?_ (by simp [optList, isSysP])
       · simpa [optList, pending_append, pending, callerOp] using hi.pend
       · simp [optList, dispatches_append, dispatches, spawnedBit]
     · cases hs
   | jobEv e =>
     obtain ⟨data, job, caller, n⟩ := c
-    obtain ⟨hdj, hbey, hear, hcur, hcd, hpend, hdisp⟩ := hi
-    simp only at hdj hbey hear hcur hcd hpend hdisp
-    cases job <;> simp only [step] at hs <;> try (cases hs)
-    rename_i r
-    split at hs
-    · rename_i r' hr
-      cases hs
-      obtain ⟨hn, hder⟩ := hcur
-      have hproj : ∀ d, d ≠ n - 1 → projD d (l ++ optList (some (AEv.sys .worker (n - 1) e))) = projD d l := by
-        intro d hd
-        have : ¬ (n - 1 = d) := fun h => hd h.symm
-        simp [optList, projD_append, projD, this]
-      refine ⟨by cases data <;> simp [dataOk] at hdj ⊢, fun d h => ?_, fun d h => ?_, ⟨hn, ?_⟩, hcd, ?_, ?_⟩
-      · simp only at h; rw [hproj d (by omega)]; exact hbey d h
-      · simp only at h; rw [hproj d (by omega)]; exact hear d h
-      · simp only [optList, projD_append, projD, if_true, derivs_snoc, hder, Option.bind]
-        exact hr
-      · simpa [optList, pending_append, pending] using hpend
-      · simpa [optList, dispatches_append, dispatches] using hdisp
-    · cases hs
+    obtain ⟨hdj, hbey, hear, hcur, hcd, hpend, hdisp, hfi, hfd⟩ := hi
+    simp only at hdj hbey hear hcur hcd hpend hdisp hfi hfd
+    have hproj : ∀ d, d ≠ n - 1 → projD d (l ++ optList (some (AEv.sys .worker (n - 1) e))) = projD d l := by
+      intro d hd
+      have : ¬ (n - 1 = d) := fun h => hd h.symm
+      simp [optList, projD_append, projD, this]
+    rcases job with _ | r | _ | ⟨r, ps, _ | _⟩ <;> simp only [step] at hs <;> try (cases hs)
+    · split at hs
+      · rename_i r' hr
+        cases hs
+        obtain ⟨hn, hder⟩ := hcur
+        refine ⟨by cases data <;> simp [dataOk] at hdj ⊢, fun d h => ?_, fun d h => ?_, ⟨hn, ?_⟩, hcd, ?_, ?_, ?_, ?_⟩
+        · simp only at h; rw [hproj d (by omega)]; exact hbey d h
+        · simp only at h; rw [hproj d (by omega)]; exact hear d h
+        · simp only [optList, projD_append, projD, if_true, derivs_snoc, hder, Option.bind]
+          exact hr
+        · simpa [optList, pending_append, pending] using hpend
+        · simpa [optList, dispatches_append, dispatches] using hdisp
+        · simpa [optList, isSysP, Job.isFailed] using hfi
+        · intro th d x h; exact hfd th d x (by simpa [optList] using h)
+      · cases hs
+    · split at hs
+      · cases hs
+      · split at hs
+        · rename_i r' hr
+          cases hs
+          obtain ⟨hn, hder⟩ := hcur
+          refine ⟨by cases data <;> simp [dataOk] at hdj ⊢, fun d h => ?_, fun d h => ?_, ⟨hn, ?_⟩, hcd, ?_, ?_, ?_, ?_⟩
+          · simp only at h; rw [hproj d (by omega)]; exact hbey d h
+          · simp only at h; rw [hproj d (by omega)]; exact hear d h
+          · simp only [optList, projD_append, projD, if_true, derivs_snoc, hder, Option.bind]
+            exact hr
+          · simpa [optList, pending_append, pending] using hpend
+          · simpa [optList, dispatches_append, dispatches] using hdisp
+          · simpa [optList, isSysP, Job.isFailed] using hfi
+          · intro th d x h; exact hfd th d x (by simpa [optList] using h)
+        · cases hs
   | send =>
     obtain ⟨data, job, caller, n⟩ := c
-    obtain ⟨hdj, hbey, hear, hcur, hcd, hpend, hdisp⟩ := hi
-    simp only at hdj hbey hear hcur hcd hpend hdisp
+    obtain ⟨hdj, hbey, hear, hcur, hcd, hpend, hdisp, hfi, hfd⟩ := hi
+    simp only at hdj hbey hear hcur hcd hpend hdisp hfi hfd
     cases job <;> simp only [step] at hs <;> try (cases hs)
     rename_i r
     split at hs
     · rename_i hnull
       cases hs
       refine ⟨by cases data <;> simp [dataOk] at hdj ⊢, by simpa [optList] using hbey,
-        by simpa [optList] using hear, ?_, hcd, by simpa [optList] using hpend, by simpa [optList] using hdisp⟩
+        by simpa [optList] using hear, ?_, hcd, by simpa [optList] using hpend, by simpa [optList] using hdisp,
+        by simpa [optList, Job.isFailed] using hfi, by simpa [optList] using hfd⟩
       simp only [optList, List.append_nil, jobOk]
       intro _
       exact traces_of_derivs hcur.2 hnull
@@ -289,8 +360,80 @@ theorem step_inv {P : APlan} {c c' : Ctl} {l : List AEv} {lb : Lbl} {o : Option 
     · cases hs
       exact inv_caller_only hi _ _ (by simp [optList, projD_append, projD]) trivial
         (by simpa [optList, pending_append, pending, callerOp] using hi.pend)
-        (by simp [optList, dispatches_append, dispatches, spawnedBit])
+        (by simp [optList, dispatches_append, dispatches, spawnedBit]) (by simp [optList, isSysP])
     · cases hs
+  | jobPanic x =>
+    obtain ⟨data, job, caller, n⟩ := c
+    obtain ⟨hdj, hbey, hear, hcur, hcd, hpend, hdisp, hfi, hfd⟩ := hi
+    simp only at hdj hbey hear hcur hcd hpend hdisp hfi hfd
+    have hproj : ∀ d, projD d (l ++ optList (some (AEv.sysP .worker (n - 1) x))) = projD d l := by
+      intro d; simp [optList, projD_append, projD]
+    rcases job with _ | r | _ | ⟨r, ps, _ | _⟩ <;> simp only [step] at hs <;> try (cases hs)
+    all_goals
+      split at hs
+      · cases hs
+        refine ⟨by cases data <;> simp [dataOk] at hdj ⊢, fun d h => by rw [hproj]; exact hbey d h,
+          fun d h => by rw [hproj]; exact hear d h, ⟨hcur.1, by rw [hproj]; exact hcur.2⟩, hcd,
+          by simpa [optList, pending_append, pending] using hpend,
+          by simpa [optList, dispatches_append, dispatches] using hdisp,
+          by simp [optList, isSysP, Job.isFailed], ?_⟩
+        intro th d y h
+        rcases List.mem_append.mp h with h | h
+        · exact hfd th d y h
+        · simp only [optList, List.mem_singleton, AEv.sysP.injEq] at h
+          have := hcur.1
+          show d + 1 = n
+          omega
+      · cases hs
+  | die =>
+    obtain ⟨data, job, caller, n⟩ := c
+    obtain ⟨hdj, hbey, hear, hcur, hcd, hpend, hdisp, hfi, hfd⟩ := hi
+    simp only at hdj hbey hear hcur hcd hpend hdisp hfi hfd
+    rcases job with _ | r | _ | ⟨r, ps, _ | _⟩ <;> simp only [step] at hs <;> try (cases hs)
+    split at hs
+    · cases hs
+      exact ⟨by cases data <;> simp [dataOk] at hdj ⊢, by simpa [optList] using hbey, by simpa [optList] using hear,
+        by simpa [optList, jobOk] using hcur, hcd, by simpa [optList] using hpend, by simpa [optList] using hdisp,
+        by simpa [optList, Job.isFailed] using hfi, by simpa [optList] using hfd⟩
+    · cases hs
+  | tlPanic x =>
+    obtain ⟨data, job, caller, n⟩ := c
+    cases caller <;> simp only [step] at hs <;> try (cases hs)
+    split at hs
+    · cases hs
+      refine inv_caller_only hi _ _ (by simp [optList, projD_append, projD]) hi.caller_data ?_ ?_ (by simp [optList, isSysP])
+      · simpa [optList, pending_append, pending, callerOp] using hi.pend
+      · simp [optList, dispatches_append, dispatches, spawnedBit]
+    · cases hs
+  | raise =>
+    obtain ⟨data, job, caller, n⟩ := c
+    cases caller <;> simp only [step] at hs <;> try (cases hs)
+    · rename_i op
+      rcases data with _ | _ <;> rcases job with _ | r | _ | ⟨r, ps, _ | _⟩ <;> simp only at hs <;> cases hs
+      exact inv_caller_only hi _ _ (by simp [optList, projD_append, projD]) trivial
+        (by simp [optList, pending_append, pending, callerOp])
+        (by simp [optList, dispatches_append, dispatches, spawnedBit]) (by simp [optList, isSysP])
+    · exact inv_caller_only hi _ _ (by simp [optList, projD_append, projD]) trivial
+        (by simp [optList, pending_append, pending, callerOp])
+        (by simp [optList, dispatches_append, dispatches, spawnedBit]) (by simp [optList, isSysP])
+  | hookEv x =>
+    obtain ⟨data, job, caller, n⟩ := c
+    cases caller <;> simp only [step] at hs <;> try (cases hs)
+    rename_i rest
+    cases rest <;> simp only at hs <;> try (cases hs)
+    split at hs
+    · cases hs
+      refine inv_caller_only hi _ _ (by simp [optList, projD_append, projD]) hi.caller_data ?_ ?_ (by simp [optList, isSysP])
+      · simpa [optList, pending_append, pending, callerOp] using hi.pend
+      · simp [optList, dispatches_append, dispatches, spawnedBit]
+    · cases hs
+  | observeGone =>
+    obtain ⟨data, job, caller, n⟩ := c
+    cases caller <;> simp only [step] at hs <;> try (cases hs)
+    rcases job with _ | r | _ | ⟨r, ps, _ | _⟩ <;> simp only at hs <;> cases hs
+    exact inv_caller_only hi _ _ (by simp [optList, projD_append, projD]) trivial
+      (by simpa [optList, pending_append, pending, callerOp] using hi.pend)
+      (by simp [optList, dispatches_append, dispatches, spawnedBit]) (by simp [optList, isSysP])
 
 theorem run_inv {P : APlan} {c : Ctl} {l : List AEv} (h : Run P c l) : Inv P c l := by
   induction h with
